@@ -103,7 +103,11 @@ func renderStyled(sb *strings.Builder, n *Node, st *RenderStyle, parentPrec int,
 	case "str":
 		sb.WriteString(mustQuote(n.S))
 	case "int":
-		sb.WriteString(strconv.FormatInt(n.I, 10))
+		if n.S != "" {
+			sb.WriteString(n.S) // the literal as it was spelled (007)
+		} else {
+			sb.WriteString(strconv.FormatInt(n.I, 10))
+		}
 	case "float":
 		sb.WriteString(n.S)
 	case "ref":
